@@ -169,12 +169,12 @@ type Ledger struct {
 	// the would-be value in AltFirstUsage); used for the class of a known finding.
 	KeepFirstUsage bool
 	Name           string
-	Txs      []*Tx // in commit order
-	byID     map[uint64]*Tx
-	Accounts map[string]*Account
-	Logs     []*Log
-	Moves    []Move
-	Schemas  []string // versions in insertion order
+	Txs            []*Tx // in commit order
+	byID           map[uint64]*Tx
+	Accounts       map[string]*Account
+	Logs           []*Log
+	Moves          []Move
+	Schemas        []string // versions in insertion order
 }
 
 func New(name string) *Ledger {
